@@ -3,16 +3,27 @@ representation under add, __contains__, __len__, count, clear, index (contracts/
 from pyvc import driver
 from contracts import iset as m
 from contracts import iset_core as core
+from contracts import iset_rm as rm
 
 
 def run(ded, repo, tier):
     driver.run_parallel(ded, [dict(module='contracts.iset', repo=repo, q=q, tier=tier, clause_of={'*': 'index_translation'})
                               for q in m.FUNCS] +
                         [dict(module='contracts.iset_core', repo=repo, q=q, tier=tier, clause_of={'*': 'list_style_ops'})
-                         for q in core.FUNCS])
+                         for q in core.FUNCS] +
+                        [dict(module='contracts.iset_rm', repo=repo, q=q, tier=tier, label=q + '[full invariant]',
+                              clause_of={'*': 'list_style_ops'}) for q in rm.FUNCS])
+    ded.trust('ASSUMED contract (not verified) for IndexedSet._cull, used by remove/discard: it may rearrange slots and dead intervals '
+              'but keeps the full invariant (I1, I2, sorted disjoint dead intervals, I4 a slot is _MISSING exactly when an interval '
+              'covers it, I5 intervals end inside the slot list), the key set and the relative order of the keys; its body (negative '
+              'indices, slice deletes, compaction through a generator expression) is outside the verified subset and is decided by the '
+              'bounded layer only')
+    ded.assume('remove/discard/add/clear[full invariant] (contracts/iset_rm.py): the abstract list is the key set of the index map '
+               'ordered by slot; remove: exactly the item leaves the key set and all other keys keep their relative order, KeyError '
+               '(state untouched) exactly for a non-member; _add_dead is used by its proved contract')
     ded.assume('item/slot representation (contracts/iset_core.py): I1 every key of item_index_map points at the slot of item_list that '
                'holds it, I2 every slot that is not _MISSING holds a key that points back at it; add/clear are proved to preserve it, '
-               'remove/pop/_cull/_compact/reverse/sort and the bulk operations are NOT under contract; arguments are not the private '
+               'pop/_cull/_compact/reverse/sort and the bulk operations are NOT under contract (remove/discard: see the full-invariant contracts); arguments are not the private '
                '_MISSING sentinel; index(): the proved postcondition of _get_apparent_index is restated with its witness existentially '
                'quantified and used by contract')
     ded.assume('dead_indices is a sorted list of disjoint, non-empty [start, stop) intervals (the representation invariant of '
@@ -23,4 +34,4 @@ def run(ded, repo, tier):
                'remove() and pop(); the clauses labelled wf / representation lemma are auxiliary (a refuted one loses the proof and is '
                'not reported as a violation)')
     ded.assume('prefix lengths of the dead intervals are non-negative (induction over the interval list not mechanised)')
-    ded.trust('not under contract (bounded only): everything else in IndexedSet (remove/pop/discard, compaction and culling, set algebra, slices, iteration, reverse/sort)')
+    ded.trust('not under contract (bounded only): everything else in IndexedSet (pop, compaction and culling, set algebra, slices, iteration, reverse/sort)')
